@@ -97,10 +97,14 @@ theorem decReach_step {st : DecState} (h : DecReach st) (op : DecOp) : DecReach 
 inductive EncOp
   | setSize (n : Nat)                                        -- `e.header_table_size = n`
   | encode (hs : List (Bytes × Bytes × Bool)) (huff : Bool)   -- `e.encode(hs, huffman=huff)`
+  /-- `e.encode(...)` on an input whose header number `|good|` is malformed (e.g. a 1-tuple): the call raises,
+      nothing is returned, but the pending size updates have been flushed and the `good` prefix processed -/
+  | encodeRaises (good : List (Bytes × Bytes × Bool)) (huff : Bool)
 
 def encStep (e : EncState) : EncOp → EncState
   | .setSize n => match Cur.setSize e n with | .ok e' => e' | _ => e
   | .encode hs huff => match Cur.encode e hs huff with | .ok (_, e') => e' | _ => e
+  | .encodeRaises good huff => match Cur.encode e good huff with | .ok (_, e') => e' | _ => e
 
 def freshEnc : EncState := { table := { maxsize := Gen.defaultEncSize } }
 def encRun (e : EncState) (ops : List EncOp) : EncState := ops.foldl encStep e
@@ -166,6 +170,9 @@ theorem encStep_ok (e : EncState) (hok : EncOK e) (op : EncOp) : EncOK (encStep 
     simp only [encStep, h]; exact hok'
   | encode hs huff =>
     obtain ⟨b, e', h, hok', _⟩ := encode_encOK e hok hs huff
+    simp only [encStep, h]; exact hok'
+  | encodeRaises good huff =>
+    obtain ⟨b, e', h, hok', _⟩ := encode_encOK e hok good huff
     simp only [encStep, h]; exact hok'
 
 /-- **every reachable encoder state is consistent** (table invariant + `resized ↔ changes ≠ []`) -/
